@@ -464,12 +464,28 @@ def ni_variant(prog, tag):
                 return [t[:4] + ([("out", ("var", secret_name(t[1])))] + list(t[4]),)]
         return [t]
 
+    # the page's list variables reach component templates only when passed: every tag passes them on (zl / zn), every
+    # component takes them into its data, and loops written in component templates iterate over the passed lists -
+    # so that loops inside component templates really iterate in isolated mode too
+    def pass_lists(owner_is_page):
+        def h(t):
+            if t[0] == "comp" and t[1] in lib_names:
+                src = (("var", "plist"), ("var", "snames")) if owner_is_page else (("var", "zl"), ("var", "zn"))
+                return [("comp", t[1], list(t[2]) + [("zl", src[0]), ("zn", src[1])], t[3], t[4])]
+            if t[0] == "for" and not owner_is_page and t[2] == ("var", "plist"):
+                return [("for", t[1], ("var", "zl"), t[3])]
+            if t[0] == "for" and not owner_is_page and t[2] == ("var", "snames"):
+                return [("for", t[1], ("var", "zn"), t[3])]
+            return [t]
+        return h
+
     q = dict(prog)
-    q["page"] = map_tpls(prog["page"], g)
+    q["page"] = map_tpls(map_tpls(prog["page"], g), pass_lists(True))
     q["lib"] = []
     for n, cd in prog["lib"]:
-        tpl = map_tpls(cd["tpl"], g) + [("text", "^"), ("out", ("var", "zu_page")), ("out", ("counter",))]
-        q["lib"].append((n, {"tpl": tpl, "data": list(cd["data"]) + [(secret_name(n), ("str", "S" + tag))]}))
+        tpl = map_tpls(map_tpls(cd["tpl"], g), pass_lists(False)) + [("text", "^"), ("out", ("var", "zu_page")), ("out", ("counter",))]
+        q["lib"].append((n, {"tpl": tpl, "data": list(cd["data"]) + [("zl", ("kw", "zl")), ("zn", ("kw", "zn")),
+                                                                   (secret_name(n), ("str", "S" + tag))]}))
     q["ctx"] = list(prog["ctx"]) + [("zu_page", "U" + tag)]
     return q
 
